@@ -263,24 +263,37 @@ impl Transaction {
 		} = opts;
 
 		// Get the current visible sequence number as our start point.
-		let start_seq_num = core.seq_num();
+		let mut start_seq_num = core.seq_num();
 		#[cfg(feature = "verif")]
 		crate::verif::yield_sync("txn.new.post_load");
 
 		// Register this txn's start_seq with the GC watermark tracker.
 		// Both read-write and write-only txns register here (write-only txns
 		// don't get a Snapshot, so SnapshotTracker alone wouldn't see them).
-		// See registration-race proof in the plan: visible_seq_num is
-		// strictly monotonic, so this load-then-register sequence cannot
-		// cause GC to advance past our start_seq.
-		let txn_guard = Some(core.active_txn_tracker.register(start_seq_num));
-		#[cfg(feature = "verif")]
-		crate::verif::yield_sync("txn.new.post_register");
+		//
+		// Loading the sequence number and registering it are two steps. A compaction
+		// that captures the snapshot list in between does not know about this reader
+		// yet and may discard versions it needs if newer ones were committed in that
+		// window. So re-read the sequence number after registering: if it moved, start
+		// over from the newer value (everything registered for the old one is released).
+		let (txn_guard, snapshot) = loop {
+			let guard = core.active_txn_tracker.register(start_seq_num);
+			#[cfg(feature = "verif")]
+			crate::verif::yield_sync("txn.new.post_register");
 
-		let mut snapshot = None;
-		if !mode.is_write_only() {
-			snapshot = Some(Snapshot::new(Arc::clone(&core), start_seq_num));
-		}
+			let mut snapshot = None;
+			if !mode.is_write_only() {
+				snapshot = Some(Snapshot::new(Arc::clone(&core), start_seq_num));
+			}
+
+			let current = core.seq_num();
+			if current == start_seq_num {
+				break (Some(guard), snapshot);
+			}
+			drop(snapshot);
+			drop(guard);
+			start_seq_num = current;
+		};
 
 		Ok(Self {
 			mode,
